@@ -244,6 +244,14 @@ impl JobSubmitDescription {
     }
 }
 
+/// Maximal number of tasks that can be created by a single submit.
+///
+/// The ids of a task array are sent as ranges, so a message of a few bytes may ask for billions
+/// of tasks, while the server needs hundreds of bytes of memory for each task. Moreover, the
+/// response to a submit (and each job detail) describes each task of the job, so a job with more
+/// than `tako::MAX_FRAME_SIZE / 8` (16.7M) tasks would not fit into a message anyway.
+pub const MAX_TASKS_PER_SUBMIT: JobTaskCount = 10_000_000;
+
 #[derive(Serialize, Deserialize, Debug)]
 pub struct SubmitRequest {
     pub job_desc: JobDescription,
